@@ -36,5 +36,8 @@ def run(ctx):
         import r_c
         if hasattr(r_c, "rule_G5C"):
             ctx.run_rule("G5C", r_c.rule_G5C)
+        # the C halves write disjoint output slots only if each returns exactly what W1C says, into arrays M1C sizes
+        ctx.run_rule("W1C", r_c.rule_W1C)
+        ctx.run_c_rule("M1C", r_c.rule_M1C, ["gnu-x86_64"])
     except ImportError:
         pass
